@@ -43,6 +43,7 @@ place() {
   for f in "$D"/*_test.go; do
     [ -f "$f" ] || continue
     tgt=$(grep -m1 -oE '[A-Za-z0-9_./-]+/[A-Za-z0-9_]+_test\.go' "$f" | head -1)
+    if [ -z "$tgt" ] && grep -qiE "module root|next to message\.go" "$f"; then tgt="$(basename "$f")"; fi
     [ -z "$tgt" ] && tgt="protocol/$(basename "$f")"
     mkdir -p "$(dirname "$tgt")"; cp "$f" "$tgt"; echo "$tgt"
   done
